@@ -52,8 +52,8 @@ class Files(RepoFiles):
         return super().get(rel)
 
 
-def run_verus(path, seed, rlimit=30, solver=None, threads=None):
-    cmd = [VERUS, path, '--edition', '2018', '--output-json', '--time-expanded', '--multiple-errors', '20',
+def run_verus(path, seed, rlimit=30, solver=None, threads=None, multiple_errors=20):
+    cmd = [VERUS, path, '--edition', '2018', '--output-json', '--time-expanded', '--multiple-errors', str(multiple_errors),
            '--rlimit', str(rlimit), '--error-format=json', '--no-report-long-running',
            '--smt-option', 'smt.random_seed=%d' % seed]
     if solver == 'cvc5':
@@ -252,7 +252,7 @@ def run_unit(unit, tier='quick', seed=0, keep=None, solver=None, rlimit=30):
             shutil.copy(can_p, keep)
         with ThreadPoolExecutor(max_workers=2) as ex:
             f1 = ex.submit(run_verus, main_p, seed, rlimit, solver, 8)
-            f2 = ex.submit(run_verus, can_p, seed, rlimit, solver, 8)
+            f2 = ex.submit(run_verus, can_p, seed, 10, solver, 8, 0)
             run = f1.result()
             crun = f2.result()
         res.cmd = re.sub(re.escape(work), '<scratch>', run['cmd'])
